@@ -443,6 +443,63 @@ func runRawRejoin(run *vk.Run, transport string, rounds int) {
 	run.Distinct("raw/rejoin/" + transport)
 }
 
+// runRawRejected: a connection attached to "/" whose CONNECT for "/adm" was REJECTED — after a first middleware had
+// already joined the socket to a room — belongs to "/" only. Nothing emitted in "/adm" afterwards (namespace-wide or
+// to that room) may reach it.
+func runRawRejected(run *vk.Run, transport string) {
+	run.Eval(1)
+	srv, err := rig.NewServer(nil, "")
+	if err != nil {
+		run.Inconclusive(err.Error())
+		return
+	}
+	defer srv.Close()
+	srv.IO.Of("/").OnConnection(func(s sio.ServerSocket) { s.OnEvent("ok", func(n int, ack func(int)) { ack(n) }) })
+	adm := srv.IO.Of("/adm")
+	adm.Use(func(s sio.ServerSocket, h *sio.Handshake) any { s.Join("tenant"); return nil })
+	adm.Use(func(s sio.ServerSocket, h *sio.Handshake) any { return fmt.Errorf("not authorized") })
+	peer, err := rawpeer.DialSIO(srv.URL, transport)
+	if err != nil {
+		run.Inconclusive(err.Error())
+		return
+	}
+	defer peer.C.Abort()
+	if res, err := peer.Connect("/", nil, 30*time.Second); err != nil || !res.OK {
+		run.Inconclusive(fmt.Sprintf("raw connect /: %v", err))
+		return
+	}
+	if res, err := peer.Connect("/adm", nil, 30*time.Second); err != nil || res.OK {
+		run.Inconclusive("raw connect /adm was not rejected")
+		return
+	}
+	for i := 0; i < 5; i++ {
+		adm.Emit("report", "to-all")
+		adm.To("tenant").Emit("report", "to-tenant")
+	}
+	id := uint64(77)
+	peer.Emit("/", &id, "ok", json.Number("1"))
+	if _, _, err := peer.WaitPacket(0, 15*time.Second, func(p *refcodec.Packet) bool { return p.Type == refcodec.Ack && p.ID != nil && *p.ID == id }); err != nil {
+		run.Inconclusive("raw rejected: fence on / not acknowledged")
+		return
+	}
+	leaked := 0
+	first := ""
+	for _, sp := range peer.Packets() {
+		if sp.P.Namespace == "/adm" && (sp.P.Type == refcodec.Event || sp.P.Type == refcodec.BinaryEvent) {
+			leaked++
+			if first == "" {
+				first = string(sp.Frames[0])
+			}
+		}
+	}
+	if leaked > 0 {
+		run.Violation(vk.Violation{Sub: "cross-namespace-delivery", Fields: map[string]any{"where": "rejected-socket", "shared_connection": true},
+			What:    fmt.Sprintf("a connection whose CONNECT for /adm was rejected (after a middleware had joined the socket to a room) received %d events of /adm, first %q [%s]", leaked, first, transport),
+			Witness: map[string]any{"transport": transport, "first_frame": first}})
+	}
+	run.Distinct("raw/rejected-ghost/" + transport)
+}
+
 // a compliant client that answers the CONNECT reply immediately must not hit "invalid state"
 func runAdmissionWindow(run *vk.Run, transport string, widen time.Duration, rounds int) {
 	srv, err := rig.NewServer(nil, "")
@@ -535,6 +592,7 @@ func main() {
 	wg.Wait()
 	for _, tr := range []string{"websocket", "polling"} {
 		runRawRejoin(run, tr, run.Pick(10, 60))
+		runRawRejected(run, tr)
 	}
 	for _, tr := range []string{"websocket", "polling"} {
 		for _, kind := range []string{"event-unjoined-root", "event-unjoined-prefix", "event-unknown-namespace", "ack-unjoined", "disconnect-unjoined", "event-while-connect-parked", "connect-error-from-client", "connect-twice"} {
